@@ -71,6 +71,10 @@ def saveOps {κ β : Type} (mode : SaveMode) (size : β → Nat) (k : κ) (res :
   | .atomic =>
     .openW (.tmp k) res :: (List.replicate (size res) (.write1 (.tmp k)) ++ [.rename (.tmp k) (.final k)])
 
+/-- the file operations of one save with explicit paths: the temporary this writer uses and the result file -/
+def saveOpsAt {κ β : Type} (size : β → Nat) (tmpP fin : Path κ) (res : β) : List (Op κ β) :=
+  .openW tmpP res :: (List.replicate (size res) (.write1 tmpP) ++ [.rename tmpP fin])
+
 inductive Outcome (β : Type) where
   | ret (v : β) (computed : Bool)   -- `computed` = `fn` was called
   | loadError                        -- `cache.load_fn` raised (EOFError / UnpicklingError)
